@@ -32,6 +32,73 @@ def coq_hop(h):
     raise ValueError(h)
 
 
+PRIO_OPS = ("boost", "restore", "clearboosts", "setprio", "setpre")
+
+
+def coq_xop(h):
+    k = h[0]
+    if k == "boost":
+        return "XBoost"
+    if k == "restore":
+        return f"(XRestore {cz(h[1])})"
+    if k == "clearboosts":
+        return "XClearBoosts"
+    if k == "setprio":
+        return f"(XSetPrio {cz(h[1])} {cz(h[2])})"
+    if k == "setpre":
+        return f"(XSetPreempt {cz(h[1])} {cbool(h[2])})"
+    return f"(XHop {coq_hop(h)})"
+
+
+def xstep(w, h):
+    """One call of the extended alphabet on the real objects -> canonical return value.
+    The calls that are not acquisitions: priority inheritance (priority.py), a plain assignment to
+    OperationContext.priority, a plain assignment to ResourceLock.allow_preemption."""
+    k = h[0]
+    c = w.ctl
+    pm = w.sys.priority_manager
+    if k == "boost":
+        out = []
+        for b in pm.check_and_boost(c):
+            out += [D.onum(b.operation_id), b.original_priority, b.boosted_priority]
+        return out
+    if k == "restore":
+        ctx = c.active_operations.get(D.oname(h[1]))
+        if ctx is None:
+            return [-1]
+        r = pm.restore_priority(ctx)
+        return [0] if r is None else [1, r]
+    if k == "clearboosts":
+        return [pm.clear_all(c)]
+    if k == "setprio":
+        ctx = c.active_operations.get(D.oname(h[1]))
+        if ctx is None:
+            return [-1]
+        ctx.priority = h[2]
+        return [0]
+    if k == "setpre":
+        lock = c.resources.get(D.rname(h[1]))
+        if lock is None:
+            return [-1]
+        lock.allow_preemption = bool(h[2])
+        return [0]
+    return w._fstep(hop_to_fop(h))
+
+
+def prio_rows(w):
+    c = w.ctl
+    r205 = [205]
+    for o, x in c.active_operations.items():
+        r205 += [D.onum(o), x.priority]
+    r206 = [206]
+    for o, b in w.sys.priority_manager.active_boosts.items():
+        r206 += [D.onum(o), b.original_priority, b.boosted_priority]
+    r207 = [207]
+    for r in w.res:
+        r207 += [r, int(bool(c.resources[D.rname(r)].allow_preemption))]
+    return [r205, r206, r207]
+
+
 class Reference:
     """The wait-for relation of the READING, recomputed from the history and the
     observed lock owners only (never from the dependency graph)."""
@@ -90,7 +157,7 @@ def run_history(case):
         for h in case["ops"]:
             before = w.view()
             # ages differ: one tick per start so that "oldest" is well defined
-            ret = w._fstep(hop_to_fop(h))
+            ret = xstep(w, h)
             after = w.view()
             refedges = ref.step(h, ret, after)
             obs.append([100] + ret)
@@ -98,6 +165,7 @@ def run_history(case):
             flat = lambda es: [x for e in es for x in e]
             obs.append([201] + flat(after["edges"]))
             obs.append([204] + flat(refedges))
+            obs += prio_rows(w)
             steps.append({"op": h, "ret": ret, "before": before, "after": after, "ref": refedges,
                           "key": state_key(w, ref)})
         return obs, steps
@@ -109,11 +177,13 @@ def run_history(case):
 def state_key(w, ref):
     """Everything the future behaviour (and the monitor) can depend on."""
     c = w.ctl
-    locks = tuple((r, l.owner, l.owner_priority, l.hold_count, tuple(l.waiting_list))
+    locks = tuple((r, l.owner, l.owner_priority, l.hold_count, tuple(l.waiting_list), bool(l.allow_preemption))
                   for r, l in ((r, c.resources[D.rname(r)]) for r in w.res))
+    boosts = tuple((o, b.original_priority, b.boosted_priority)
+                   for o, b in w.sys.priority_manager.active_boosts.items())
     ops = tuple((o, x.priority, tuple(x.acquired_resources.keys())) for o, x in c.active_operations.items())
     edges = tuple((a, tuple(b)) for a, b in c.dependency_graph.edges.items())
-    return (locks, ops, edges, tuple(sorted(w.ever)), tuple(sorted(ref.blocked)))
+    return (locks, ops, edges, tuple(sorted(w.ever)), tuple(sorted(ref.blocked)), boosts)
 
 
 class C15(Check):
@@ -148,22 +218,27 @@ class C15(Check):
                    "calls are sequential", "rec_stack of detect_cycle always equals the set of elements of path (modelled as one list)"]
 
     # -- generation --------------------------------------------------------
-    def alphabet(self, nops, nres):
+    def alphabet(self, nops, nres, starts=True, ends=True, extra=()):
+        """extra: symbols of the extended alphabet, e.g. ("boost",), ("restore", o), ("setprio", o, p)"""
         al = []
         for o in range(1, nops + 1):
-            al.append(("start", o))
+            if starts:
+                al.append(("start", o))
             for r in range(1, nres + 1):
                 al.append(("acq", o, r))
             for r in range(1, nres + 1):
                 al.append(("rel", o, r))
-            al.append(("complete", o))
-            al.append(("abort", o))
+            if ends:
+                al.append(("complete", o))
+                al.append(("abort", o))
         al.append(("wd",))
+        al += [tuple(x) for x in extra]
         return al
 
-    def explore(self, res, strategy, prios, depth):
+    def explore(self, res, strategy, prios, depth, al=None, prefix0=()):
         """Depth-first exploration on the real code; returns maximal explored paths."""
-        al = self.alphabet(len(prios), len(res))
+        if al is None:
+            al = self.alphabet(len(prios), len(res))
         seen = {}
         out = []
 
@@ -207,7 +282,7 @@ class C15(Check):
             if not extended or remaining == 0:
                 if prefix:
                     out.append(prefix)
-        rec([], None, depth)
+        rec([list(h) for h in prefix0], None, depth)
         # drop paths that are prefixes of other emitted paths
         outs = sorted(set(tuple(map(tuple, p)) for p in out))
         keep = []
@@ -236,8 +311,26 @@ class C15(Check):
         for res, strat, prios, depth in cfg22 + cfg33:
             for ops in self.explore(res, strat, prios, depth):
                 cases.append({"res": res, "strategy": strat, "ops": ops})
+        # priorities that change during the history (priority.py, plain assignment): a waiter that was BLOCKED
+        # can later PREEMPT.  (a) two operations, one assignment symbol per operation and level;
+        # (b) three started operations W > O >= H in priority, inheritance along W -> H -> O, no complete/abort
+        n_before = self.explored_edges
+        dA, dB = (6, 6) if quick else (8, 8)
+        for pre in ([True, False], [True, True]):
+            res = [[1, pre[0]], [2, pre[1]]]
+            al = self.alphabet(2, 2, extra=[("setprio", 1, 2), ("setprio", 2, 0)] + ([("setprio", 1, 0), ("setprio", 2, 2)] if not quick else []))
+            for ops in self.explore(res, "priority", [0, 1], dA, al=al):
+                cases.append({"res": res, "strategy": "priority", "ops": ops})
+        for res, prios in (([[1, False], [2, True]], [1, 0, 2]), ([[1, True], [2, True]], [1, 1, 2])):
+            al = self.alphabet(3, 2, starts=False, ends=False,
+                               extra=[("boost",), ("restore", 1), ("restore", 2), ("clearboosts",)])
+            pre0 = [["start", o, prios[o - 1]] for o in (1, 2, 3)]
+            for ops in self.explore(res, "priority", prios, dB, al=al, prefix0=pre0):
+                cases.append({"res": res, "strategy": "priority", "ops": ops})
+        self.extra_cov["explored_transitions_priority_changes"] = self.explored_edges - n_before
         self.extra_cov["explored_transitions"] = self.explored_edges
-        self.extra_cov["exhaustive_depths"] = {"2ops_x_2res": d22, "3ops_x_3res": d33}
+        self.extra_cov["exhaustive_depths"] = {"2ops_x_2res": d22, "3ops_x_3res": d33, "2ops_x_2res_setprio": dA,
+                                               "3ops_x_2res_inheritance_after_starts": dB}
         # the monitor already ran on every explored transition; violations found there are kept
         self._explore_violations = list(self.violations)
         return cases
@@ -288,7 +381,7 @@ class C15(Check):
         return common.call_with_watchdog(lambda: run_history(case), 10.0)
 
     def coq_case(self, case):
-        return ctuple(D.coq_res(case["res"]), STRAT[case["strategy"]], clist([coq_hop(h) for h in case["ops"]]))
+        return ctuple(D.coq_res(case["res"]), STRAT[case["strategy"]], clist([coq_xop(h) for h in case["ops"]]))
 
     # -- the property, on the implementation's trace ------------------------
     def monitor(self, case, obs, steps):
